@@ -220,6 +220,27 @@ def walk(expr):
         stack.extend(deps)
 
 
+def _delayed_ten():
+    from dask import delayed
+    return delayed(lambda: 10.0)()
+
+
+def _add_kw(b, off=0):
+    return b + off
+
+
+def _add_first(b, lst):
+    return b + lst[0]
+
+
+def _add_key(b, off=None):
+    return b + off["a"]
+
+
+def _add_pos(b, off):
+    return b + off
+
+
 def rewrite_targets(tier, rng):
     """compositions chosen to make the optimiser's rewrite rules fire (slice / rechunk / shuffle pushdowns,
     nested-op fusion, sliding-window substitution, chunk unification, rechunk-into-IO): (name, build)"""
@@ -263,6 +284,12 @@ def rewrite_targets(tier, rng):
         "roll(x,3)[2:7]": (lambda x: da.roll(x, 3)[2:7], lambda a: np.roll(a, 3)[2:7]),
         "map_overlap(x)": (lambda x: x.map_overlap(lambda b: b * 2, depth=1, boundary="reflect"), lambda a: a * 2),
         "diff(x)[1:5]": (lambda x: da.diff(x)[1:5], lambda a: np.diff(a)[1:5]),
+        # lazy (delayed) values handed to a blockwise function above an elemwise op: blockwise fusion must still
+        # deliver the computed value, whether the delayed object is a keyword, or sits inside a list / dict argument
+        "map_blocks(f, x+1, off=delayed)": (lambda x: da.map_blocks(_add_kw, x + 1, off=_delayed_ten(), dtype="f8"), lambda a: a + 11),
+        "map_blocks(f, x+1, [delayed])": (lambda x: da.map_blocks(_add_first, x + 1, [_delayed_ten()], dtype="f8"), lambda a: a + 11),
+        "map_blocks(f, x+1, off={'a': delayed})": (lambda x: da.map_blocks(_add_key, x + 1, off={"a": _delayed_ten()}, dtype="f8"), lambda a: a + 11),
+        "map_blocks(f, x+1, delayed)": (lambda x: da.map_blocks(_add_pos, x + 1, _delayed_ten(), dtype="f8"), lambda a: a + 11),
     }
     ops2 = {
         "(x+1)[1:4, ::2]": (lambda x: (x + 1)[1:4, ::2], lambda a: (a + 1)[1:4, ::2]),
